@@ -74,9 +74,20 @@ func (r *Rng) Bytes(n int) []byte {
 // Hasher accumulates a 64-bit case fingerprint.
 type Hasher struct{ h uint64 }
 
-func NewHasher() *Hasher           { return &Hasher{0xcbf29ce484222325} }
-func (h *Hasher) U(v uint64)       { h.h = mix(h.h ^ v) }
-func (h *Hasher) B(b []byte)       { for _, x := range b { h.h = (h.h ^ uint64(x)) * 1099511628211 }; h.h = mix(h.h) }
-func (h *Hasher) S(s string)       { h.B([]byte(s)) }
-func (h *Hasher) Sum() uint64      { return h.h }
-func Hash(vs ...uint64) uint64     { h := NewHasher(); for _, v := range vs { h.U(v) }; return h.Sum() }
+func NewHasher() *Hasher     { return &Hasher{0xcbf29ce484222325} }
+func (h *Hasher) U(v uint64) { h.h = mix(h.h ^ v) }
+func (h *Hasher) B(b []byte) {
+	for _, x := range b {
+		h.h = (h.h ^ uint64(x)) * 1099511628211
+	}
+	h.h = mix(h.h)
+}
+func (h *Hasher) S(s string)  { h.B([]byte(s)) }
+func (h *Hasher) Sum() uint64 { return h.h }
+func Hash(vs ...uint64) uint64 {
+	h := NewHasher()
+	for _, v := range vs {
+		h.U(v)
+	}
+	return h.Sum()
+}
